@@ -94,7 +94,10 @@ pub fn check_program(out: &mut Out, names: &mut Ser, p: &Prog, src: &str, defect
         Stage::TokErr(_) => { out.stat("stage:tok-err"); out.hit("C07", "sentence-rejected-by-tokenizer", src, &origin); return; }
         Stage::ParseErr(_) => {
             out.stat("stage:parse-err");
-            if want_db.is_ok() { out.hit("C07", "sentence-rejected-by-parser", src, &origin); }
+            if want_db.is_ok() {
+                out.hit("C07", "sentence-rejected-by-parser", src, &origin);
+                if p.fully_annotated { out.hit("C05", "fully-annotated-well-formed-program-rejected-by-front-end", src, &origin); }
+            }
             return;
         }
         Stage::Panic(stage, m) => { out.hit("C14", &format!("{stage}-panic"), src, &m); return; }
@@ -286,6 +289,113 @@ fn alias_type(e: &E, rng: &mut Rng) -> Option<E> {
     Some(prog::mk_let(vec![("u0_".to_owned(), Some(E::TyType), E::TyType)], c))
 }
 
+// ---- E-order: every small definition group by kind (constant / function / recursive function) and
+// every pattern of references between its definitions -------------------------------------------
+#[derive(Clone, Copy, PartialEq)]
+enum DK { Const, Fun, Rec }
+
+fn order_program(kinds: &[DK], refs: &[Vec<usize>], names: &[String], body_refs: &[usize]) -> E {
+    let int = || E::TyInt;
+    let use_of = |j: usize| -> E { match kinds[j] { DK::Const => prog::var(&names[j]), _ => prog::app(prog::var(&names[j]), prog::lit(1)) } };
+    let sum = |init: E, js: &[usize]| js.iter().fold(init, |acc, j| prog::bin(0, acc, use_of(*j)));
+    let mut defs = vec![];
+    for (i, k) in kinds.iter().enumerate() {
+        let v = format!("v{i}");
+        let (ann, rhs) = match k {
+            // never a literal, so that the definition is not a value
+            DK::Const => (int(), sum(prog::bin(0, prog::lit(1), prog::lit(1)), &refs[i])),
+            DK::Fun => (prog::arrow(int(), int()), prog::lam(&v, Some(int()), sum(prog::var(&v), &refs[i]))),
+            DK::Rec => (prog::arrow(int(), int()), prog::lam(&v, Some(int()),
+                prog::ite(prog::bin(5, prog::var(&v), prog::lit(0)), prog::lit(0),
+                    prog::bin(0, sum(prog::lit(2), &refs[i]), prog::app(prog::var(&names[i]), prog::bin(1, prog::var(&v), prog::lit(1))))))),
+        };
+        defs.push((names[i].clone(), Some(ann), rhs));
+    }
+    prog::mk_let(defs, sum(prog::lit(0), body_refs))
+}
+
+// the language's rule for definition order, stated independently: a non-value definition k may not
+// reach, directly or through value definitions, a non-value definition at a position >= k
+fn order_rule_accepts(kinds: &[DK], refs: &[Vec<usize>]) -> bool {
+    let n = kinds.len();
+    for k in 0..n {
+        if kinds[k] != DK::Const { continue; }
+        let mut seen = vec![false; n];
+        let mut stack: Vec<usize> = refs[k].clone();
+        while let Some(j) = stack.pop() {
+            if seen[j] { continue; }
+            seen[j] = true;
+            if kinds[j] == DK::Const { if j >= k { return false; } } else {
+                stack.extend(refs[j].iter().copied());
+                if kinds[j] == DK::Rec { stack.push(j); }
+            }
+        }
+    }
+    true
+}
+
+fn run_order_patterns(out: &mut Out, names: &mut Ser, tier: &str, rng: &mut Rng) {
+    let kinds_all = [DK::Const, DK::Fun, DK::Rec];
+    let max_n = 3;
+    let mut idx = 0usize;
+    for n in 2..=max_n {
+        let nk = 3usize.pow(n as u32);
+        for kc in 0..nk {
+            let kinds: Vec<DK> = (0..n).map(|i| kinds_all[(kc / 3usize.pow(i as u32)) % 3]).collect();
+            let others: Vec<Vec<usize>> = (0..n).map(|i| (0..n).filter(|j| *j != i).collect()).collect();
+            let subsets = 1usize << (n - 1);
+            let total = subsets.pow(n as u32);
+            for rc in 0..total {
+                // in quick, thin out the 3-definition patterns
+                if n == 3 && tier != "thorough" && rc % 3 != (kc % 3) { continue; }
+                let refs: Vec<Vec<usize>> = (0..n).map(|i| {
+                    let m = (rc / subsets.pow(i as u32)) % subsets;
+                    others[i].iter().enumerate().filter(|(b, _)| m >> b & 1 == 1).map(|(_, j)| *j).collect()
+                }).collect();
+                // no cycle among function definitions other than a recursive function's own base-cased loop
+                // (mutual recursion without a base case would diverge)
+                let mut cyclic = false;
+                for a in 0..n {
+                    if kinds[a] == DK::Const { continue; }
+                    let mut seen = vec![false; n];
+                    let mut st: Vec<usize> = refs[a].iter().copied().filter(|j| kinds[*j] != DK::Const).collect();
+                    while let Some(j) = st.pop() {
+                        if j == a { cyclic = true; break; }
+                        if seen[j] { continue; }
+                        seen[j] = true;
+                        st.extend(refs[j].iter().copied().filter(|q| kinds[*q] != DK::Const));
+                    }
+                }
+                if cyclic { continue; }
+                // one definition that nobody mentions may be named `_`
+                let mentioned: Vec<bool> = (0..n).map(|j| refs.iter().any(|r| r.contains(&j)) || kinds[j] == DK::Rec).collect();
+                let mut dnames: Vec<String> = (0..n).map(|i| format!("x{i}")).collect();
+                let mut body_refs: Vec<usize> = (0..n).collect();
+                if let Some(j) = (0..n).find(|j| !mentioned[*j]) {
+                    if rng.chance(1, 2) { dnames[j] = "_".to_owned(); body_refs.retain(|b| *b != j); }
+                }
+                let e = order_program(&kinds, &refs, &dnames, &body_refs);
+                let ok = order_rule_accepts(&kinds, &refs);
+                let expected = if ok { prog::reference_eval(&e, 50_000) } else { Expected::Unknown };
+                let src = prog::render_plain(&e);
+                idx += 1;
+                if ok {
+                    let p = Prog { e, ty_src: "int".to_owned(), expected, features: vec!["order-pattern"], fully_annotated: true };
+                    check_program(out, names, &p, &src, false, rng, 1_000_000 + idx);
+                } else {
+                    out.stat("order:rule-rejects");
+                    // the front end must reject it (a definition is not available in time)
+                    let mut toks = vec![];
+                    if let Stage::Parsed(_) = front(&src, &mut toks) {
+                        out.hit("C01", "definition-order-violation-accepted", &src, "a non-value definition reaches a later (or its own) non-value definition");
+                    }
+                }
+            }
+        }
+    }
+    out.stat_add("order-patterns", idx as u64);
+}
+
 pub fn run(out: &mut Out, tier: &str, seed: u64) {
     let mut names = Ser::new();
     names.name("_");
@@ -308,4 +418,5 @@ pub fn run(out: &mut Out, tier: &str, seed: u64) {
         }
     }
     out.stat_add("programs", n as u64);
+    run_order_patterns(out, &mut names, tier, &mut rng);
 }
